@@ -145,7 +145,13 @@ def draw_coincidence(rng):
     pick (rate, accel, T), then the start accumulator that makes total(T) a multiple of 2^31 (the branch-deciding coincidences of the statement)"""
     T = max(2, rng.getrandbits(rng.choice([2, 3, 4, 6, 8, 10, 12, 14, 16, 18])))
     mode = rng.random()
-    if mode < 0.35:
+    if mode < 0.12:
+        # a long constant-rate move (millions of steps): rate x ticks beyond 2^53, so the boundary landing is decided by digits that
+        # double-precision arithmetic does not have (seed C03_9)
+        T = max(2, rng.getrandbits(rng.choice([20, 22, 24, 26, 28])))
+        a = 0
+        r = rng.choice([-1, 1]) * rng.randint(2 ** 26, S.MM1)
+    elif mode < 0.35:
         # ends as the rate reaches zero: rate_T = r0 + a*T = 0 (or one tick either side)
         a = S.rand_signed(rng, max(1, S.MM1 // T)) or 1
         r = -a * (T + rng.choice([-1, 0, 0, 0, 1])) + S.tdiv(a, 2)
